@@ -25,6 +25,26 @@ CHECKS = {
             "technique": "TLA+ spec of score text grammar and official severity bands + TLC trace validation of recorded observations",
             "text": "For every vector of the score tables (every score value that arises from real vectors) the driver records repr(score), its type, and the severity from severities(), the JSON output and the v4 attribute; TLC judges every distinct observation against the score-text grammar and the official bands (TraceRepr.tla). Evidence lists which band edges were actually produced per version and slot.",
             "note": "trusted: TLC; the band tables in spec/Api.tla; CPython repr(float)"},
+    "C04": {"mod": "props.strings", "ref": "DESIGN.md 5 C04",
+            "technique": "TLA+ grammar (Vector.tla Parse) + TLC trace validation of constructor outcomes on generated strings",
+            "text": "Thousands of distinct strings (valid vectors of every version in random order covering every metric and value, every kind of single edit of them, arbitrary hypothesis text) are given to all three constructors of the working tree; TLC parses each string itself at character level and demands exactly the outcome class the grammar dictates (object / that version's malformed error / mandatory error), and that no exception outside CVSSError escapes.",
+            "note": "trusted: TLC; the grammar in spec/Vector.tla; unbounded input space covered by bounded neighbourhoods plus seeded generation, not by proof"},
+    "C07": {"mod": "props.strings", "ref": "DESIGN.md 5 C07",
+            "technique": "TLA+ spec of the canonical form and of object equality + TLC trace validation (per-event and whole-trace clauses)",
+            "text": "For recorded constructions TLC checks that clean_vector() lists exactly the defined metrics once each behind the right prefix, that across the whole trace the emitted metric order is one fixed order (acyclic precedence), that re-parsing yields an equal object with equal scores/hash, and for pools of objects that the ==/!=/hash/set-membership matrix is exactly the specification's equality (same version incl. minor, same defined metric values) and never equals a foreign value.",
+            "note": "trusted: TLC; Defined()/EqObj in spec/Vector.tla, Api.tla"},
+    "C08": {"mod": "props.strings", "ref": "DESIGN.md 5 C08",
+            "technique": "TLA+ transcription of the official vectorString patterns + grammar; TLC trace validation of emitted strings",
+            "text": "Every cleaned vector and the vector part of every Red Hat vector recorded from the working tree must be accepted by the specification's grammar, by the library's own constructor, and by the TLA+ transcription of the official vectorString pattern of its version (v4.0: mandatory order Base, Threat, Environmental, Supplemental). The builder's return value is checked by the same predicate in C16.",
+            "note": "trusted: TLC; OfficialPattern in spec/Vector.tla (cross-checked against Python re on the pinned official schema files in this run)"},
+    "C12": {"mod": "props.strings", "ref": "DESIGN.md 5 C12",
+            "technique": "TLA+ spec of Red Hat notation incl. the float() literal grammar + TLC trace validation of rh_vector/from_rh_vector events",
+            "text": "rh_vector() format and round trip on valid vectors; from_rh_vector() on all 101 score texts x 30 vectors per version and thousands of seeded score spellings / vector parts: TLC computes the demanded outcome class (object, RH-malformed, score mismatch, vector errors) from the string itself and from the base score the library reports for the vector part.",
+            "note": "trusted: TLC; numeric literals restricted to ASCII and <= 8 significant digits so that exact rational comparison equals float comparison"},
+    "C15": {"mod": "props.strings", "ref": "DESIGN.md 5 C15",
+            "technique": "TLA+ spec of the sub-vectors + TLC trace validation incl. re-assembled vector scores",
+            "text": "temporal_vector()/environmental_vector() of recorded v2/v3 constructions must equal the specification's strings (every group metric once, in order, given value or ND / X / inherited base value); the vector re-assembled from base metrics and both sub-vectors (string re-derived by TLC) must have identical scores.",
+            "note": "trusted: TLC; group orders in spec/Tables2.tla, Tables3.tla"},
 }
 
 NOT_APPLICABLE = []
